@@ -50,6 +50,8 @@ def key_build(t):
     a = _arrow(t)
     if a is None:
         return None
+    if t[0] in ("ustructure", "uplace"):
+        return (t[0], t[1], t[2] if t[0] == "ustructure" else "", len(t[-1]) % 7)
     n = 0 if t[1] == "-" else len(t[1]) // 2
     res = t[a + 1:]
     shape = "".join("f" if x != "-" else "a" for x in t[2:6])
@@ -77,6 +79,16 @@ def key_unit(t):
         sc = t[2].split(";")
         last = sc[-1].split(":")[-1] if sc != ["-"] else "-"
         return ("pushbits", len(sc), last, sum(int(x.split(":")[1]) for x in sc if ":" in x and int(x.split(":")[1]) < 1000) % 8)
+    if t[0] == "uline":
+        # distinct (length bucket, #non-data modules bucket, result)
+        nd = sum(1 for c in t[1] if int(c, 16) >> 1)
+        return ("uline", min(len(t[1]), 40) // 4, min(nd, 3), tuple(t[a + 1:]))
+    if t[0] == "usq":
+        return ("usq", t[1], tuple(t[a + 1:]))
+    if t[0] == "ustructure":
+        return ("ustructure", t[1], t[2], hash(t[3]) % 3)
+    if t[0] == "uplace":
+        return ("uplace", t[1], hash(t[2]) % 3)
     if t[0] == "select":
         res = t[a + 1:]
         return ("select", t[2], t[3], t[4], t[5] != "-", res[1] if len(res) > 1 else res[0], len(t[1]) % 5)
@@ -113,14 +125,16 @@ PROPS = {
     ),
     "C01": dict(
         module="FastQr.Props.C01", level="proof", key=key_build,
-        rule="cases: public QRBuilder; every (version, level) cell with forced/automatic mode, mask and version, lengths "
+        rule="cases: `uplace`: place_on_matrix_data through its hook on the blank symbol with ARBITRARY codeword bytes (spec verdict: the "
+             "k-th cell of the ISO read-out order holds bit k, labels untouched); and the public QRBuilder; every (version, level) cell with forced/automatic mode, mask and version, lengths "
              "{0,1,2,3, cap/2, cap-3..cap, first length of the version} and random, contents random / lowest / highest / pad "
              "look-alike; thorough = every (version, level, mask in 8+auto, mode in 3+auto). distinct = distinct (forced-option "
              "shape, reported level/mode/version/mask, length class); every tuple pins one configuration cell.",
         trusted=COMMON_TRUST, assumptions=["Spec.Decode is the ISO reference decoding without error correction (exact agreement required)"]),
     "C02": dict(
         module="FastQr.Props.C02", more_modules=["FastQr.Props.C02Built"], level="proof", key=key_build,
-        rule="cases: as C01; spec verdict = Table 9 block split of the read-out codewords, zero remainder bits, all syndromes "
+        rule="cases: `ustructure`: polynomials::structure through its hook on ARBITRARY data buffers for the (version, level) layouts "
+             "(spec verdict: Table 9 de-interleaving returns the buffer, all syndromes zero, the codeword after the last is 0); and builds as C01; spec verdict = Table 9 block split of the read-out codewords, zero remainder bits, all syndromes "
              "alpha^0..alpha^(ec-1) zero in every block. distinct as C01.",
         trusted=COMMON_TRUST),
     "C03": dict(
@@ -164,7 +178,11 @@ PROPS = {
         trusted=COMMON_TRUST, assumptions=["stack/heap exhaustion and allocator aborts are not modelled"]),
     "C11": dict(
         module="FastQr.Props.C11", more_modules=["FastQr.Props.C11Doc"], level="proof", key=key_unit,
-        rule="cases: builds with the selection recorder hook: 8 (mask, ranking score, candidate matrix) per build; spec verdict = "
+        rule="cases: (a) `uline`: score::line through its hook on ARBITRARY module sequences (random labels / long runs / 1011101 windows "
+             "at every offset, next to and across function-pattern modules), spec verdict = (40 per window, N-2 per run) of Spec.Penalty; "
+             "(b) `usq`: the 2x2 / dark-ratio / total scorers on arbitrary matrices (real labels + random values, random labels, uniform), "
+             "spec verdict = Spec.Penalty.blocks / ratio / total when columns 0 and 1 carry equal labels (always true of symbols); "
+             "(c) builds with the selection recorder hook: 8 (mask, ranking score, candidate matrix) per build; spec verdict = "
              "candidates are masks 0..7 of one placed matrix and the emitted mask's Spec.Penalty.total is minimal (forced mask "
              "overrides). distinct = (level, mode, version, forced?, chosen mask, length class).",
         trusted=COMMON_TRUST),
